@@ -61,16 +61,14 @@ theorem optLoop_wf : ∀ (fuel : Nat) (st : OptSt) (data : Sl) (out : LoopOut),
     unfold optLoop at h
     simp only [h0, if_true, Res.ok.injEq] at h
     subst h
-    simp only [hpad, List.length_nil, h0, Nat.add_zero]
-    exact ⟨wfOptsG_pre _ hpre, rfl⟩
+    exact ⟨by simp only [hpad]; exact wfOptsG_pre _ hpre, by simp only [hpad, List.length_nil, h0]⟩
   | succ fuel ih =>
     intro st data out hf hpre hpad h he
     unfold optLoop at h
     by_cases h0 : data.vis.length = 0
     · simp only [h0, if_true, Res.ok.injEq] at h
       subst h
-      simp only [hpad, List.length_nil, h0, Nat.add_zero]
-      exact ⟨wfOptsG_pre _ hpre, rfl⟩
+      exact ⟨by simp only [hpad]; exact wfOptsG_pre _ hpre, by simp only [hpad, List.length_nil, h0]⟩
     · simp only [h0, if_false] at h
       have hs := sim_optStep (d1 := data) (d2 := data) rfl st (by omega)
       generalize optStep Variant.fixed st data = r at hs h
@@ -124,19 +122,20 @@ theorem decoded_wf' (old : Layer) (data foreign : Bytes) (o : DecOut)
   have hlen : 20 ≤ data.length := decode_ok_len _ old data foreign o h he
   unfold decode decodeFromBytes at h
   simp only [Sl.len] at h
-  rw [if_neg (by omega)] at h
+  have hn20 : ¬ data.length < 20 := by omega
+  simp only [hn20, if_false] at h
   obtain ⟨hd, hp, r1, r2, r3, r4, r6, r7, r8⟩ := parseFixed_ranges ⟨data, foreign⟩ hlen
   rw [hp] at h
   simp only [Res.bind_ok] at h
   have hb12 := UInt8.toNat_lt hd.b12
   by_cases h5 : hd.b12.toNat / 16 < 5
-  · rw [if_pos h5] at h
-    cases h; cases he
-  rw [if_neg h5] at h
+  · simp only [h5, if_true, pure_eq_ok, Res.ok.injEq] at h
+    subst h; cases he
+  simp only [h5, if_false] at h
   by_cases hds : hd.b12.toNat / 16 * 4 > data.length
-  · rw [if_pos hds] at h
-    cases h; cases he
-  rw [if_neg hds] at h
+  · simp only [hds, if_true, pure_eq_ok, Res.ok.injEq] at h
+    subst h; cases he
+  simp only [hds, if_false] at h
   unfold Sl.sliceTo at h
   rw [Sl.slice_ok (Nat.zero_le _) (by simp only; omega), Sl.sliceFrom_ok (by simp only; omega),
       Sl.slice_ok (by omega) (by simp only; omega)] at h
@@ -149,12 +148,15 @@ theorem decoded_wf' (old : Layer) (data foreign : Bytes) (o : DecOut)
     simp only [Res.bind_ok, pure_eq_ok, Res.ok.injEq] at h
     subst h
     simp only at he
-    have hw := optLoop_wf _ _ _ out (Nat.le_refl _) pre_nil rfl hloop he
+    have hw := optLoop_wf ((List.take (hd.b12.toNat / 16 * 4 - 20) (List.drop 20 data)).length)
+      { multipath := if Variant.fixed.resetMultipath = true then false else old.multipath }
+      ⟨List.take (hd.b12.toNat / 16 * 4 - 20) (List.drop 20 data), List.drop (hd.b12.toNat / 16 * 4) data ++ foreign⟩
+      out (Nat.le_refl _) pre_nil rfl hloop he
     obtain ⟨hw1, hw2⟩ := hw
     simp only [optsWire, Nat.zero_add, List.length_take, List.length_drop] at hw2
     simp only [wf, rangesB, Bool.and_eq_true, decide_eq_true_eq]
     refine ⟨⟨⟨⟨⟨⟨⟨⟨⟨⟨r1, r2⟩, r3⟩, r4⟩, by omega⟩, r6⟩, r8⟩, r7⟩, hw1⟩, ?_⟩, ?_⟩
-    · simp only; omega
-    · simp only; omega
+    · omega
+    · omega
 
 end Gp.Tcp
